@@ -95,6 +95,10 @@ RULE += (
     "ry a shorter window; a quarter of the histories edit the clients' examples in place betw"
     'een rounds and compare with fresh datasets; FedAvg over haiku-style params with a frozen'
     ' module; aggregator weights as 0-d NumPy arrays; a check that restarts in a new process.')
+RULE += (
+    ' '
+    'Also: constructing the compression aggregators is part of the unrelated activity between'
+    ' repeated rounds.')
 ASSUMPTIONS = [
     'batching seeds are fixed integers (seed=None draws OS entropy by '
     'documented design and is outside the claim)',
